@@ -629,7 +629,25 @@ impl Clone for Tok {
     }
 }
 
-/// Deterministic hasher (removes `RandomState` as a nondeterminism source).
+thread_local! {
+    /// fault kind F9: (the write at which the hasher unwinds, writes so far, fired)
+    static HASH_FAIL: std::cell::Cell<(usize, usize, bool)> = std::cell::Cell::new((0, 0, false));
+}
+/// Arm (k > 0) or disarm (k = 0) the panicking hasher for the next hash observation.
+pub fn set_hash_fail(k: u32) {
+    HASH_FAIL.with(|c| c.set((k as usize, 0, false)));
+}
+/// Whether the armed hasher panic happened; disarms.
+pub fn take_hash_fired() -> bool {
+    HASH_FAIL.with(|c| {
+        let f = c.get().2;
+        c.set((0, 0, false));
+        f
+    })
+}
+
+/// Deterministic hasher (removes `RandomState` as a nondeterminism source). With fault kind F9
+/// armed its k-th `write` unwinds: a `Hasher` is caller-supplied code like any closure.
 pub struct StubHasher(pub u64);
 impl StubHasher {
     pub fn new() -> Self {
@@ -641,6 +659,20 @@ impl Hasher for StubHasher {
         self.0
     }
     fn write(&mut self, bytes: &[u8]) {
+        let hit = HASH_FAIL.with(|c| {
+            let (at, n, fired) = c.get();
+            if at == 0 {
+                return false;
+            }
+            let n = n + 1;
+            let hit = n == at && !std::thread::panicking();
+            c.set((at, n, fired || hit));
+            hit
+        });
+        if hit {
+            note(EV_INJECT, 9000);
+            std::panic::panic_any(Injected);
+        }
         for &b in bytes {
             self.0 ^= b as u64;
             self.0 = self.0.wrapping_mul(0x0000_0100_0000_01B3);
